@@ -384,7 +384,10 @@ func (fr *Frame) enterLoop(l *loop, in *State, heads map[*ssa.BasicBlock]*loopHe
 			if !fx.eng.useClause(inv) {
 				continue
 			}
-			t := fr.evalClause(inv, in, nil, nil)
+			t, ok := fr.loopClause(inv, in, name)
+			if !ok {
+				continue
+			}
 			fx.oblige("invariant", fmt.Sprintf("%s/inv_established/%s", name, clauseName(inv, i)), in, t, l.header.Instrs[0].Pos(), inv.Src)
 		}
 	}
@@ -444,6 +447,14 @@ func (fr *Frame) enterLoop(l *loop, in *State, heads map[*ssa.BasicBlock]*loopHe
 			}
 		}
 	}
+	if len(fx.bindErrors) > 0 {
+		if fx.bindLoopHeaps == nil {
+			fx.bindLoopHeaps = map[string]bool{}
+		}
+		for hn := range mods.heaps {
+			fx.bindLoopHeaps[sanitize(hn)] = true
+		}
+	}
 	for _, hn := range sortedKeys(mods.heaps) {
 		so := mods.heaps[hn]
 		fx.heapSorts[hn] = so
@@ -496,7 +507,10 @@ func (fr *Frame) enterLoop(l *loop, in *State, heads map[*ssa.BasicBlock]*loopHe
 				continue
 			}
 			inv := inv
-			t := fx.hyp(func() T { return fr.evalClause(inv, st, nil, nil) })
+			t := fx.hyp(func() T {
+				t, _ := fr.loopClause(inv, st, name)
+				return t
+			})
 			fx.assume(st.guard, t)
 		}
 		for _, ap := range ls.HeadApplies {
@@ -510,12 +524,32 @@ func (fr *Frame) enterLoop(l *loop, in *State, heads map[*ssa.BasicBlock]*loopHe
 			fx.noteAssumption("UNCHECKED loop-head assumption in " + name + ": " + inv.Label + " " + inv.Src)
 		}
 		if ls.Decreases != nil {
-			cv := fr.evalExprIn(ls.Decreases.E, st, nil, nil)
-			h.variant = fx.define("variant", sInt, cv.asInt())
-			h.hasVar = true
+			if _, ok := fr.loopClause(Clause{Label: "decreases", Src: ls.Decreases.Src, E: &EBinary{Op: "==", L: ls.Decreases.E, R: ls.Decreases.E}}, st, name); ok {
+				cv := fr.evalExprIn(ls.Decreases.E, st, nil, nil)
+				h.variant = fx.define("variant", sInt, cv.asInt())
+				h.hasVar = true
+			}
 		}
 	}
 	return st
+}
+
+// loopClause evaluates a loop clause; a clause that mentions a name the
+// current code does not have (a restructured loop) is skipped and recorded:
+// the check then answers UNDECIDED unless an obligation that does not depend
+// on it fails.
+func (fr *Frame) loopClause(c Clause, st *State, what string) (t T, ok bool) {
+	defer func() {
+		if r := recover(); r != nil {
+			if u, isU := r.(unsupported); isU && strings.Contains(u.msg, "unknown name") {
+				fr.fx.bindErrors = append(fr.fx.bindErrors, fmt.Sprintf("%s: loop clause %q no longer binds to the code (%s)", what, c.Label+" "+c.Src, u.msg))
+				t, ok = "true", false
+				return
+			}
+			panic(r)
+		}
+	}()
+	return fr.evalClause(c, st, nil, nil), true
 }
 
 func clauseName(c Clause, i int) string {
@@ -539,7 +573,10 @@ func (fr *Frame) backEdge(h *loopHead, st *State, pos token.Pos) {
 			if !fx.eng.useClause(inv) {
 				continue
 			}
-			t := fr.evalClause(inv, st, nil, nil)
+			t, ok := fr.loopClause(inv, st, name)
+			if !ok {
+				continue
+			}
 			fx.oblige("invariant", fmt.Sprintf("%s/inv_preserved/%s", name, clauseName(inv, i)), st, t, pos, inv.Src)
 		}
 	}
